@@ -20,6 +20,8 @@ def used_point(md, k):
     return np.minimum(np.maximum(md.xl, md.xbase + np.minimum(np.maximum(md.sl, md.points[k, :]), md.su)), md.xu)
 
 def pre_build(ctx):
+    import gen_rowwrites
+    gen_rowwrites.regenerate(ctx)
     import gen_kernels
     ctx.cov["translated_model_decisions"] = gen_kernels.regenerate_model(ctx)
     import gen_hcalls
@@ -37,8 +39,7 @@ THEOREMS = [
     "Dfols.C17.C17_save_keeps_best",
     "Dfols.C17.C17_old_swap_counts",
     "Dfols.C17.C17_old_nan_shadow",
-    "Dfols.C17.C17_old_argmin_nan",
-]
+    "Dfols.C17.C17_old_argmin_nan", "Dfols.C17.C17_src_rows_travel_together"]
 TRUSTED_EXTRA = [
     "AST-to-Lean translator harness/gen_kernels.py (translate_model): the tests of change_point / add_new_point / save_point / get_final_results as Bool functions over Val",
     "modelled, not verified: coordinates and linear algebra of Model (points are opaque ids; residual means are real doubles computed elementwise)",
